@@ -73,11 +73,43 @@ func unwrapIface(v ssa.Value) ssa.Value {
 	}
 }
 
+// resolveCaptured: a read of a variable captured by a function literal is the value the enclosing function
+// stored into that variable (assigned once).
+func resolveCaptured(v ssa.Value) ssa.Value {
+	for d := 0; d < 4; d++ {
+		u, ok := v.(*ssa.UnOp)
+		if !ok || u.Op != token.MUL {
+			return v
+		}
+		fv, ok := u.X.(*ssa.FreeVar)
+		if !ok || fv.Parent() == nil {
+			return v
+		}
+		idx := -1
+		for i, q := range fv.Parent().FreeVars {
+			if q == fv {
+				idx = i
+			}
+		}
+		b := bindingOf(fv.Parent(), idx)
+		al, ok := b.(*ssa.Alloc)
+		if !ok {
+			return v
+		}
+		sv := singleStore(al)
+		if sv == nil {
+			return v
+		}
+		v = sv
+	}
+	return v
+}
+
 // canonValue strips interface conversions and reads of a local variable that is assigned exactly once
 // (a variable captured by a closure lives in a cell: every use is a load of that cell).
 func canonValue(v ssa.Value) ssa.Value {
 	for d := 0; d < 6; d++ {
-		v = unwrapIface(v)
+		v = unwrapIface(resolveCaptured(unwrapIface(v)))
 		u, ok := v.(*ssa.UnOp)
 		if !ok || u.Op != token.MUL {
 			return v
